@@ -382,8 +382,12 @@ func orchestrate(id, tier, recordFile string) int {
 	ev["wall_s"] = time.Since(start).Seconds()
 	ev["violations"] = violCount
 	data, _ := json.MarshalIndent(ev, "", " ")
-	os.MkdirAll(filepath.Join(verifDir(), "evidence"), 0o755)
-	if err := os.WriteFile(filepath.Join(verifDir(), "evidence", id+".json"), append(data, '\n'), 0o644); err != nil {
+	evDir := filepath.Join(verifDir(), "evidence")
+	if d := os.Getenv("VERIF_EVIDENCE_DIR"); d != "" {
+		evDir = d // scratch runs against modified copies of the repo must not overwrite the real evidence
+	}
+	os.MkdirAll(evDir, 0o755)
+	if err := os.WriteFile(filepath.Join(evDir, id+".json"), append(data, '\n'), 0o644); err != nil {
 		fmt.Println("FRAMEWORK-ERROR:", err)
 		return 2
 	}
